@@ -415,13 +415,16 @@ impl<'x, T: VxShow> VxShow for &'x T { open spec fn shown(&self) -> Seq<char> { 
     from vx import dialect as D
     # one escaping round: the assignment inside `for char_to_escape in CHARS_TO_ESCAPE.iter()`
     k = ef.find('for char_to_escape in CHARS_TO_ESCAPE.iter()')
-    if k < 0: raise X.LostAnchor('grapheme.rs::escape_regexp_symbols inner loop')
     from vx import rustlex as L
-    bo = L.body_open(ef, k); inner = ef[bo + 1:L.match_close(ef, bo)].strip()
+    if k >= 0:
+        bo = L.body_open(ef, k); inner = ef[bo + 1:L.match_close(ef, bo)].strip()
+    else:
+        inner = None          # no such loop any more: the single-round slice is skipped (its labels go missing from the registry); slice escape_text decides
+        b.log.add('R7', 'grapheme.rs::escape_regexp_symbols', 'loop over CHARS_TO_ESCAPE not found', 'slice escape_round skipped')
     def pre(t, log, w):
         t = D.expand_format_macros(t, log, w)
         return re.sub(r'\.replace\(', '.vx_replace(', t)
-    b.slice_fn('escape_round', 'pub fn escape_round(character0: String, char_to_escape: &&str) -> (character: String)', '    let mut character = character0;\n    ' + inner + '\n    character',
+    if inner is not None: b.slice_fn('escape_round', 'pub fn escape_round(character0: String, char_to_escape: &&str) -> (character: String)', '    let mut character = character0;\n    ' + inner + '\n    character',
                'grapheme.rs::escape_regexp_symbols body of `for char_to_escape in CHARS_TO_ESCAPE.iter()`', props=['C07'], pre=pre,
                requires=['char_to_escape@.len() == 1'],
                clauses=[Clause('escaper.round_prefixes_backslash', "character@ == fm(character0@, round_map(char_to_escape@[0]))", ['C01', 'C07'])],
